@@ -40,7 +40,8 @@ func (e *purlExtractor) ToPURL(p *extractor.Package) *purl.PackageURL {
 	if !e.hasPURL[p.Name] {
 		return nil
 	}
-	return &purl.PackageURL{Type: e.typ[p.Name], Name: p.Name, Version: p.Version}
+	// the PURL's name differs from the package's own name, as for ecosystems that normalise names
+	return &purl.PackageURL{Type: e.typ[p.Name], Name: "purl-" + p.Name, Version: p.Version}
 }
 func (e *purlExtractor) Ecosystem(*extractor.Package) string { return "" }
 
@@ -111,7 +112,7 @@ func VerifDetectors() {
 				indexOK = false
 			}
 			for _, f := range files {
-				got := px.GetSpecific(f, ex.typ[f])
+				got := px.GetSpecific("purl-"+f, ex.typ[f])
 				if ex.hasPURL[f] != (len(got) == 1 && got[0].Name == f) {
 					indexOK = false
 				}
@@ -119,7 +120,7 @@ func VerifDetectors() {
 				if ex.typ[f] == purl.TypeGeneric {
 					other = purl.TypeNPM
 				}
-				if len(px.GetSpecific(f, other)) != 0 {
+				if len(px.GetSpecific("purl-"+f, other)) != 0 || len(px.GetSpecific(f, ex.typ[f])) != 0 {
 					indexOK = false
 				}
 			}
